@@ -530,15 +530,10 @@ theorem mutatePodResourceSpec_annot (k : Ranges) (q : Pod) (a : Annot) :
   simp only [hpc]
   split <;> rfl
 
-/-- 7. `idempotent` for the resource pipeline of handleCreate (tier translation followed by the
-    summary annotation): admitting the result again changes nothing.
-    FULL STATEMENT (not proved here): the same for `admitCreate k gate rand ps` with an arbitrary
-    profile list `ps`, i.e. `admitCreate … p = some p' → admitCreate … p' = some p'`.  Missing: the
-    (routine) lemma that `applyProfiles` — a fold of "overwrite the field with a constant or keep
-    it" — is idempotent and commutes with the container/annotation updates.  The correspondence
-    run re-admits every admitted pod with its profiles and the oracle checks this
-    (fingerprint C13:not-idempotent). -/
-theorem readmission_idempotent_partial (k : Ranges) (p p' : Pod)
+/-- 7 (resource pipeline). tier translation followed by the summary annotation: running the two
+    steps on their own result changes nothing.  (Lemma of `readmission_idempotent` below, which is the
+    full statement over arbitrary profile lists; this was `readmission_idempotent_partial`.) -/
+theorem readmission_pipeline_idempotent (k : Ranges) (p p' : Pod)
     (h : mutateByExt (mutatePodResourceSpec k p) = some p') :
     mutateByExt (mutatePodResourceSpec k p') = some p' := by
   have hid := mutateByExt_idempotent _ _ h
@@ -560,6 +555,149 @@ theorem readmission_idempotent_partial (k : Ranges) (p p' : Pod)
   obtain ⟨a, rfl⟩ := hform
   rw [mutatePodResourceSpec_annot, mutatePodResourceSpec_idempotent]
   exact hid
+
+/-! ### 7. re-admission over an arbitrary profile list
+`applyProfiles` is a fold of "overwrite the field with a constant or keep it"; it collapses to ONE such
+overwrite (`summaryFrom`), which is idempotent and commutes with every update of the container /
+overhead / annotation fields. -/
+
+/-- "overwrite with a constant or keep" -/
+def ovr {α} (o x : Option α) : Option α := match o with | some c => some c | none => x
+
+theorem ovr_idem {α} (o x : Option α) : ovr o (ovr o x) = ovr o x := by cases o <;> rfl
+theorem ovr_assoc {α} (a b x : Option α) : ovr b (ovr a x) = ovr (ovr b a) x := by cases a <;> cases b <;> rfl
+
+theorem applyProfile_eq (p : Pod) (pr : Profile) :
+    applyProfile p pr = { p with prioLabel := ovr pr.prioLabel p.prioLabel, qosLabel := ovr pr.qos p.qosLabel,
+                                 priority := ovr pr.priority p.priority, subPrio := ovr pr.subPrio p.subPrio } := by
+  cases h1 : pr.qos <;> cases h2 : pr.prioLabel <;> cases h3 : pr.priority <;> cases h4 : pr.subPrio <;>
+    simp [applyProfile, ovr, h1, h2, h3, h4]
+
+/-- two profiles applied one after the other act like one profile. -/
+def mergeProfile (a b : Profile) : Profile :=
+  { a with prioLabel := ovr b.prioLabel a.prioLabel, qos := ovr b.qos a.qos,
+           priority := ovr b.priority a.priority, subPrio := ovr b.subPrio a.subPrio }
+
+def idProfile : Profile :=
+  { name := 0, matched := true, skipRes := false, prob := none, qos := none, prioLabel := none, priority := none, subPrio := none }
+
+theorem applyProfile_merge (p : Pod) (a b : Profile) :
+    applyProfile (applyProfile p a) b = applyProfile p (mergeProfile a b) := by
+  simp only [applyProfile_eq, mergeProfile, ovr_assoc]
+
+theorem applyProfile_id (p : Pod) : applyProfile p idProfile = p := by
+  cases p; rfl
+
+/-- the one overwrite a profile list amounts to (for a given random draw). -/
+def summaryFrom (rand : Int) (ps : List Profile) (s : Profile) : Profile :=
+  ps.foldl (fun acc pr => if shouldSkipProfile rand pr then acc else mergeProfile acc pr) s
+
+theorem applyProfiles_from (rand : Int) (ps : List Profile) (s : Profile) (p : Pod) :
+    applyProfiles rand ps (applyProfile p s) = applyProfile p (summaryFrom rand ps s) := by
+  induction ps generalizing s with
+  | nil => rfl
+  | cons pr rest ih =>
+    unfold applyProfiles summaryFrom
+    simp only [List.foldl_cons]
+    by_cases hs : shouldSkipProfile rand pr = true
+    · simp only [hs, if_true]; exact ih s
+    · simp only [hs]
+      rw [applyProfile_merge]
+      exact ih (mergeProfile s pr)
+
+/-- `applyProfiles` is a single overwrite-or-keep of the four class fields. -/
+theorem applyProfiles_summary (rand : Int) (ps : List Profile) (p : Pod) :
+    applyProfiles rand ps p = applyProfile p (summaryFrom rand ps idProfile) := by
+  have := applyProfiles_from rand ps idProfile p
+  rwa [applyProfile_id] at this
+
+/-- same class fields (labels, priority, sub-priority). -/
+def SameMeta (q r : Pod) : Prop :=
+  q.prioLabel = r.prioLabel ∧ q.qosLabel = r.qosLabel ∧ q.priority = r.priority ∧ q.subPrio = r.subPrio
+
+theorem applyProfile_fixed (p q : Pod) (s : Profile) (h : SameMeta q (applyProfile p s)) : applyProfile q s = q := by
+  obtain ⟨h1, h2, h3, h4⟩ := h
+  rw [applyProfile_eq] at h1 h2 h3 h4
+  simp only [] at h1 h2 h3 h4
+  rw [applyProfile_eq, h1, h2, h3, h4]
+  simp only [ovr_idem]
+  rw [← h1, ← h2, ← h3, ← h4]
+
+/-- applying the profiles to a pod that already carries their class fields changes nothing
+    (idempotence + commutation with any update of containers / overhead / annotation). -/
+theorem applyProfiles_fixed (rand : Int) (ps : List Profile) (p q : Pod) (h : SameMeta q (applyProfiles rand ps p)) :
+    applyProfiles rand ps q = q := by
+  rw [applyProfiles_summary] at h ⊢
+  exact applyProfile_fixed p q _ h
+
+theorem applyProfiles_idempotent (rand : Int) (ps : List Profile) (p : Pod) :
+    applyProfiles rand ps (applyProfiles rand ps p) = applyProfiles rand ps p :=
+  applyProfiles_fixed rand ps p _ ⟨rfl, rfl, rfl, rfl⟩
+
+theorem sameMeta_mutate (k : Ranges) (p : Pod) : SameMeta (mutatePodResourceSpec k p) p := by
+  unfold mutatePodResourceSpec SameMeta
+  simp only []
+  split <;> exact ⟨rfl, rfl, rfl, rfl⟩
+
+/-- the summary step only ever rewrites the annotation. -/
+theorem mutateByExt_form (q p' : Pod) (h : mutateByExt q = some p') : ∃ a, p' = { q with annot := a } := by
+  unfold mutateByExt at h
+  simp only [] at h
+  cases ha : q.annot with
+  | malformed => rw [ha] at h; cases h
+  | absent =>
+    rw [ha] at h; simp only [] at h
+    split at h <;> cases h
+    · exact ⟨Annot.absent, by rw [← ha]⟩
+    · exact ⟨_, rfl⟩
+  | spec old =>
+    rw [ha] at h; simp only [] at h
+    split at h <;> cases h
+    · exact ⟨Annot.spec old, by rw [← ha]⟩
+    · exact ⟨_, rfl⟩
+
+/-- the pod returned by clusterColocationProfileMutatingPod on CREATE. -/
+theorem colocationMutate_create_fst (k : Ranges) (gate : Bool) (rand : Int) (ps : List Profile) (p : Pod) :
+    (colocationMutate k true gate rand ps p).1 =
+      if (sortProfiles (ps.filter (·.matched))).isEmpty = true then p
+      else if ((sortProfiles (ps.filter (·.matched))).any (·.skipRes) || gate) = true then
+        applyProfiles rand (sortProfiles (ps.filter (·.matched))) p
+      else mutatePodResourceSpec k (applyProfiles rand (sortProfiles (ps.filter (·.matched))) p) := by
+  unfold colocationMutate
+  simp only [Bool.not_true, Bool.false_eq_true, if_false]
+  split
+  · rfl
+  · split <;> rfl
+
+/-- 7. `idempotent`, full statement: re-admission idempotence of the first two steps of handleCreate: for every profile list,
+    feature gate and random draw, admitting an admitted pod again (same profiles, same draw)
+    returns it unchanged. -/
+theorem readmission_idempotent (k : Ranges) (gate : Bool) (rand : Int) (ps : List Profile) (p p' : Pod)
+    (h : admitCreate k gate rand ps p = some p') : admitCreate k gate rand ps p' = some p' := by
+  unfold admitCreate at h ⊢
+  rw [colocationMutate_create_fst] at h ⊢
+  generalize sortProfiles (ps.filter (·.matched)) = ms at h ⊢
+  by_cases he : ms.isEmpty = true
+  · rw [if_pos he] at h ⊢
+    exact mutateByExt_idempotent _ _ h
+  · rw [if_neg he] at h ⊢
+    by_cases hsk : (ms.any (·.skipRes) || gate) = true
+    · rw [if_pos hsk] at h ⊢
+      obtain ⟨a, rfl⟩ := mutateByExt_form _ _ h
+      have hfix : applyProfiles rand ms { applyProfiles rand ms p with annot := a } = { applyProfiles rand ms p with annot := a } :=
+        applyProfiles_fixed rand ms p _ ⟨rfl, rfl, rfl, rfl⟩
+      rw [hfix]
+      exact mutateByExt_idempotent _ _ h
+    · rw [if_neg hsk] at h ⊢
+      have h' := h
+      obtain ⟨a, rfl⟩ := mutateByExt_form _ _ h
+      have hm := sameMeta_mutate k (applyProfiles rand ms p)
+      have hfix : applyProfiles rand ms { mutatePodResourceSpec k (applyProfiles rand ms p) with annot := a } =
+          { mutatePodResourceSpec k (applyProfiles rand ms p) with annot := a } :=
+        applyProfiles_fixed rand ms p _ hm
+      rw [hfix]
+      exact readmission_pipeline_idempotent k _ _ h'
+
 
 /-! ### non-vacuity -/
 
